@@ -5,11 +5,12 @@ import RoaringModel.Driver.Codec
 import RoaringModel.Driver.Multi
 import RoaringModel.Driver.Treemap
 import RoaringModel.Driver.Lsb0
+import RoaringModel.Driver.TreemapCodec
 import RoaringModel.Driver.Extra
 /-! Line-protocol driver: `driver [--dbg 0|1] < ops > out` -/
 open Roaring Roaring.Driver
 
-def handlers : List Handler := [ops32, opsAlgebra, opsIter32, opsCodec, opsMulti, opsTreemap, opsLsb0, opsExtra]
+def handlers : List Handler := [ops32, opsAlgebra, opsIter32, opsCodec, opsMulti, opsTreemap, opsLsb0, opsTreemapCodec, opsExtra]
 
 def dispatch (st : DState) (toks : List String) : DState × String :=
   let rec go : List Handler → DState × String
